@@ -9,6 +9,11 @@ import time
 VERIF = os.path.dirname(os.path.dirname(os.path.abspath(__file__)))
 REPO = os.environ.get("VERIF_REPO", "/repo")
 BUILD = os.path.join(VERIF, ".build")
+ALT = REPO != "/repo"
+if ALT:
+    import hashlib
+    BUILD = os.path.join(VERIF, ".build", "alt", hashlib.sha256(REPO.encode()).hexdigest()[:8])
+    os.makedirs(BUILD, exist_ok=True)
 
 
 def group_dir(group):
@@ -35,15 +40,22 @@ def prepare(group):
     if group in REPO_GROUPS:
         return REPO
     d = group_dir(group)
-    # Cargo.lock of /repo pins every dependency version (offline resolution)
-    shutil.copyfile(os.path.join(REPO, "Cargo.lock"), os.path.join(d, "Cargo.lock"))
     pg = os.path.join(d, "src", "playback_gen.rs")
     if not os.path.exists(pg):
         open(pg, "w").write("// generated at run time by khlib.native_playback\n")
-    if REPO != "/repo":
-        # scratch copy of the repository (self-test): rewrite the path dependency
-        ct = open(os.path.join(d, "Cargo.toml")).read()
-        raise RuntimeError("VERIF_REPO override is not supported for Kani groups; use a worktree swap")
+    if ALT:
+        # scratch checkout of the repository (seed runs): a copy of the harness crate whose path dependency points there
+        src = d
+        d = os.path.join(BUILD, "crates", "kani-" + group)
+        os.makedirs(d, exist_ok=True)
+        ct = open(os.path.join(src, "Cargo.toml")).read().replace('path = "/repo"', f'path = "{REPO}"')
+        open(os.path.join(d, "Cargo.toml"), "w").write(ct)
+        if os.path.isdir(os.path.join(src, ".cargo")) and not os.path.exists(os.path.join(d, ".cargo")):
+            shutil.copytree(os.path.join(src, ".cargo"), os.path.join(d, ".cargo"))
+        if not os.path.islink(os.path.join(d, "src")):
+            os.symlink(os.path.join(src, "src"), os.path.join(d, "src"))
+    # Cargo.lock of /repo pins every dependency version (offline resolution)
+    shutil.copyfile(os.path.join(REPO, "Cargo.lock"), os.path.join(d, "Cargo.lock"))
     return d
 
 
